@@ -50,6 +50,26 @@ def p_lossless(t):
         f = debcon.Debian822(io.StringIO(t)).to_dict()
         if f != before:
             return 'Debian822(file object) gives %r, Debian822(text) gives %r' % (f, before)
+        import os
+        import tempfile
+        fd, path = tempfile.mkstemp(suffix='.dsc')
+        try:
+            with os.fdopen(fd, 'w', encoding='utf-8', newline='') as fh:
+                fh.write(t)
+            # (a file is read with universal newlines: texts with carriage returns are left to the text route)
+            g = debcon.get_paragraph_data_from_file(path) if '\r' not in t else single
+            if g != single:
+                return 'get_paragraph_data_from_file gives %r, get_paragraph_data on the same text %r' % (g, single)
+            if not t.lstrip().startswith('-----BEGIN PGP') and '\r' not in t:
+                g2 = debcon.Debian822.from_file(path).to_dict()
+                if g2 != before:
+                    return 'Debian822.from_file gives %r, Debian822(text) %r' % (g2, before)
+            g3 = debcon.Debian822.from_string(t).to_dict()
+            import textwrap
+            if g3 != debcon.Debian822(textwrap.dedent(t).strip()).to_dict():
+                return 'Debian822.from_string gives %r' % (g3,)
+        finally:
+            os.unlink(path)
         o.dumps(), repr(o), str(o), len(o), list(o)
         if o.to_dict() != before:
             return 'after rendering, the object holds %r, before it held %r' % (o.to_dict(), before)
